@@ -133,42 +133,3 @@ fn c10_metadata_block_padding() {
     assert!(blk[136] == 0 && blk[2000] == 0 && blk[4095] == 0);
     std::mem::forget(blk);
 }
-
-// ---------------------------------------------------------------- device hooks for write_buffer harnesses
-pub(crate) static mut HOOKS_ON: bool = false;
-pub(crate) static mut RETIRE_OK: bool = true;
-pub(crate) static mut RETIRE_CALLS: u8 = 0;
-pub(crate) static mut RETIRE_N: usize = 0;
-pub(crate) static mut RETIRE_EXT: [(u64, usize); 2] = [(0, 0); 2];
-
-/// consulted by the cfg(kani) line spliced into DiskIO::retire_extents (lib/kanirun.py REWRITES)
-pub(crate) fn hook_retire_extents(_d: &DiskIO, extents: &[(u64, usize)]) -> Result<()> {
-    // always intercepted under cfg(kani): no harness runs the real retire_extents body (CBMC does not
-    // constant-propagate a `static mut` flag here and would explore the whole device path otherwise)
-    unsafe {
-        RETIRE_CALLS += 1;
-        RETIRE_N = extents.len();
-        let mut i = 0;
-        while i < extents.len() && i < 2 {
-            RETIRE_EXT[i] = extents[i];
-            i += 1;
-        }
-        if RETIRE_OK { Ok(()) } else { Err(FeoxError::InvalidDevice) }
-    }
-}
-
-/// a DiskIO that is never used for real I/O (every device call the harness reaches is hooked)
-pub(crate) fn mk_disk() -> DiskIO {
-    use std::os::unix::io::FromRawFd;
-    DiskIO {
-        ring: None,
-        next_user_data: 0,
-        write_indeterminate: AtomicBool::new(false),
-        journal_generation: AtomicU64::new(7),
-        journal_slot: AtomicUsize::new(1),
-        file_identity: FileIdentity { device: 0, inode: 0 },
-        _file: Arc::new(unsafe { File::from_raw_fd(100) }),
-        fd: 100,
-        _use_direct_io: false,
-    }
-}
